@@ -7,6 +7,7 @@ package main
 import (
 	"bufio"
 	"encoding/hex"
+	stdjson "encoding/json"
 	"errors"
 	"flag"
 	"fmt"
@@ -316,12 +317,49 @@ func emitCreate4(a, b []byte) {
 	if o.status == "ok" {
 		re = runMerge4(false, a, o.out)
 	}
-	emit("create4", kv{"a", hx(a)}, kv{"b", hx(b)}, kv{"obs", o.str()}, kv{"reapplied", re.str()})
+	emit("create4", kv{"a", hx(a)}, kv{"b", hx(b)}, kv{"obs", o.str()}, kv{"reapplied", re.str()}, kv{"stable", b2s(floatStable(a) && floatStable(b))})
+}
+
+// floatStable: every number of the text is spelled exactly as encoding/json prints its float64
+// value (so that decoding into float64 and encoding again reproduces the literal)
+func floatStable(text []byte) bool {
+	v, ok := decodeStd(text)
+	if !ok {
+		return false
+	}
+	var walk func(x interface{}) bool
+	walk = func(x interface{}) bool {
+		switch t := x.(type) {
+		case stdjson.Number:
+			f, err := t.Float64()
+			if err != nil {
+				return false
+			}
+			out, err := stdjson.Marshal(f)
+			return err == nil && string(out) == string(t)
+		case []interface{}:
+			for _, e := range t {
+				if !walk(e) {
+					return false
+				}
+			}
+		case map[string]interface{}:
+			for _, e := range t {
+				if !walk(e) {
+					return false
+				}
+			}
+		}
+		return true
+	}
+	return walk(v)
 }
 
 func create4Stream(n int) {
 	savedNumPool = numPool
-	numPool = []string{"0", "1", "2", "-1", "3", "10", "42", "9007199254740991", "-7", "100"}
+	// exactly representable / float-stable spellings, some of them very close to one another
+	numPool = []string{"0", "1", "2", "-1", "3", "10", "42", "9007199254740991", "-7", "100", "1e-10", "2e-10", "0.1234567891", "0.1234567892",
+		"1.5", "1.5000000001", "1000000.1", "1000000.2", "5e-324", "0.5", "0.25"}
 	defer func() { numPool = savedNumPool }()
 	for i := 0; i < n; i++ {
 		g := genOpts{depth: 1 + rng.Intn(3), ws: chance(0.3)}
@@ -386,9 +424,18 @@ func perturb4(v interface{}) interface{} {
 		return x + "x"
 	case bool:
 		return !x
+	case stdjson.Number:
+		if n, ok := closeNum4[string(x)]; ok && chance(0.7) {
+			return stdjson.Number(n)
+		}
+		return stdjson.Number(pick("0", "1", "2", "7"))
 	}
 	return "other"
 }
+
+// a different number close by (both float-stable)
+var closeNum4 = map[string]string{"1e-10": "2e-10", "2e-10": "1e-10", "0.1234567891": "0.1234567892", "0.1234567892": "0.1234567891",
+	"1.5": "1.5000000001", "1.5000000001": "1.5", "1000000.1": "1000000.2", "1000000.2": "1000000.1", "0": "5e-324", "5e-324": "0", "0.5": "0.25", "1": "2"}
 
 func emitEqual4(a, b []byte) {
 	var res bool
